@@ -172,3 +172,34 @@ add("C20", "other",
     "gain * max(1, width - 1); GammaWindow returns exactly `width` non-negative samples, sample i being t^(n-1) exp(-a t + n ln a - ln (n-1)!) at "
     "t = width-1-i with a = (n-1)/(width - peak*width) (n >= 2) or 5/width (n = 1), over uninterpreted exp / log / power (0 <= peak < 1 assumed). "
     "The position of GammaWindow's maximum, the sums of the windows and gauss_quant accuracy/monotonicity are bounded." + MIX, TB)
+
+# ---- additions of the last build session (appended to the texts above) ----------------------------------------------------------------
+_ACC = (" The read-only accessors through which the property is observed are under contract too (each returns exactly the attribute - or the "
+        "documented function of attributes - that the other contracts constrain, and writes nothing): ")
+EXTRA = {
+    "C02": _ACC + "frame_style, frame_length, frame_shift, sampling_rate, kaldi_shift, bank, includes_energy, frame_length_ms, frame_shift_ms.",
+    "C03": _ACC + "the short-integration computer's frame_style, frame_length, frame_shift, sampling_rate and the base class's frame_length_ms / frame_shift_ms.",
+    "C04": _ACC + "`started` of both computers is the `_started` flag the method contracts set and reset.",
+    "C05": _ACC + "centers_hz (the inner vertices in order / the centres the constructor laid out), supports_hz (pair k = vertices k and k+2), num_filts, "
+                  "sampling_rate, scaled_l2_norm, erb, order of all four banks.",
+    "C07": _ACC + "is_real, is_analytic, is_zero_phase, supports, supports_hz of all four banks and the base class's supports_ms.",
+    "C11": " The SPHERE clause goes through the same reader functions as C12: copy_samples (all five codings) and sphere_read_signal are under "
+           "contract for C11 as well (replayed by the C12 stand-in); the stand-in also writes data sections longer than the reader's 16 KiB block "
+           "with 3-7 channels.",
+    "C14": " The module class itself is under contract: PyTorchShortTimeFourierTransformFrameComputer.__init__ (ValueError iff a filter is not a "
+           "vector, an offset is negative, frame length / shift are not positive, the style is unknown, the window's shape is not (frame_length,) "
+           "or a given DFT size is shorter than the frame; otherwise every argument is stored under the attribute forward() reads, offsets and "
+           "filters as the argument's columns in order, default DFT size 2**ceil(log2(frame_length))) and forward (one call of the functional on "
+           "the caller's signal and the module's own attributes in the functional's parameter order); the constructors of PyTorchPreemphasize, "
+           "PyTorchPostProcessorWrapper and PyTorchShortIntegrationFrameComputer, the two delegating forwards and check_in.",
+    "C15": " Stack.__init__ is under contract (ValueError iff num_vectors < 1; every argument stored unchanged under the attribute apply reads).",
+    "C17": " Standardize.__init__ is under contract by case split over the caller's arguments and over what each read attempt does: nothing read "
+           "without a file name (TypeError for stray keywords); exactly one read with an explicit dtype; otherwise attempts with float64, float32, "
+           "'dm', 'fm' in that order, the four documented exception classes move on and anything else propagates, the first success is kept, IOError "
+           "when all fail, and the float re-interpretation heuristic runs exactly when the array read is one-dimensional.",
+    "C18": " The constructors of Dither and Preemphasize are under contract (the coefficient is stored unchanged).",
+    "C19": " LinearScaling.__init__ is under contract (low_hz and slope_hz stored unchanged).",
+    "C20": " GammaWindow.__init__ is under contract (order and peak stored unchanged).",
+}
+for _pid, _txt in EXTRA.items():
+    CHECKS[_pid]["text"] = CHECKS[_pid]["text"] + _txt
